@@ -141,6 +141,12 @@ type engine struct {
 
 	rootList  func() []string
 	realClean func() error
+
+	// chained: the invoker's Cleaner is cleaner.NewChainedCleaner of two
+	// parts (as bb_runner wires it); the harness decides which part fails.
+	chained  bool
+	failFlip int
+	partRes  map[int]string
 }
 
 func newEngine(tr *common.Trace, n int) *engine {
@@ -192,6 +198,61 @@ func (e *engine) cleanerFunc(ctx context.Context) error {
 	}
 	e.tr.Emit(common.Ev{"ev": "CleanEnd", "t": tn(tid), "res": res, "root": e.rootList()})
 	if res != "ok" {
+		return errCleanFail
+	}
+	return nil
+}
+
+// useChainedCleaner replaces the invoker by one whose Cleaner is the real
+// ChainedCleaner over two gated parts. Must be called before a client is
+// made. One CleanStart is logged when the first part starts and one
+// CleanEnd when the last part ends; its result is "fail" iff the harness
+// made any part fail (what the chain itself returned is not consulted).
+func (e *engine) useChainedCleaner() {
+	e.chained = true
+	e.partRes = map[int]string{}
+	e.inv = cleaner.NewIdleInvoker(cleaner.NewChainedCleaner([]cleaner.Cleaner{e.cleanPartA, e.cleanPartB}))
+}
+
+func (e *engine) cleanPartA(ctx context.Context) error {
+	tid := e.tidHere()
+	c := &cleanCall{tid: tid, done: make(chan string, 1)}
+	e.mu.Lock()
+	e.pending = append(e.pending, c)
+	e.mu.Unlock()
+	e.tr.Emit(common.Ev{"ev": "CleanStart", "t": tn(tid), "root": e.rootList()})
+	res := <-c.done
+	e.mu.Lock()
+	if res == "fail" {
+		// alternately the first and the second part
+		e.failFlip++
+		res = []string{"fail1", "fail2"}[e.failFlip%2]
+	}
+	e.partRes[tid] = res
+	e.mu.Unlock()
+	if res == "fail1" {
+		return errCleanFail
+	}
+	return nil
+}
+
+func (e *engine) cleanPartB(ctx context.Context) error {
+	tid := e.tidHere()
+	e.mu.Lock()
+	res := e.partRes[tid]
+	delete(e.partRes, tid)
+	e.mu.Unlock()
+	if res == "ok" && e.realClean != nil {
+		if err := e.realClean(); err != nil {
+			res = "fail2"
+		}
+	}
+	overall := "ok"
+	if res != "ok" {
+		overall = "fail"
+	}
+	e.tr.Emit(common.Ev{"ev": "CleanEnd", "t": tn(tid), "res": overall, "root": e.rootList(), "part": res})
+	if res == "fail2" {
 		return errCleanFail
 	}
 	return nil
@@ -968,6 +1029,10 @@ func TestRandom(t *testing.T) {
 		tr.Emit(common.Ev{"ev": "reset", "trace": i, "mode": m.name, "n": n})
 		runTrace(t, tr, func() {
 			e := newEngine(tr, n)
+			if i%2 == 1 {
+				// every other schedule: ChainedCleaner of two parts
+				e.useChainedCleaner()
+			}
 			e.cl = m.mk(e, rng)
 			for s := 0; s < steps && !e.isBroken(); s++ {
 				acts := e.enabled()
